@@ -13,6 +13,9 @@ type Server struct {
 }
 
 func NewServer(s *openapi3.Server) (zero Server, _ error) {
+	if s == nil {
+		return zero, fmt.Errorf("server is not defined")
+	}
 	variables, err := NewMap[ServerVariable, *openapi3.ServerVariable](s.Variables, NewServerVariable)
 	if err != nil {
 		return zero, fmt.Errorf("new variables: %w", err)
@@ -26,10 +29,10 @@ func NewServer(s *openapi3.Server) (zero Server, _ error) {
 
 func NewServers(ss openapi3.Servers) ([]Server, error) {
 	out := make([]Server, 0, len(ss))
-	for _, s := range ss {
+	for i, s := range ss {
 		server, err := NewServer(s)
 		if err != nil {
-			return nil, fmt.Errorf("new server: %w", err)
+			return nil, fmt.Errorf("new server %d: %w", i, err)
 		}
 		out = append(out, server)
 	}
